@@ -66,7 +66,13 @@ VarSites ==
     <<"a", "{", "tag", "(", "s", ":", "$", "v", ")", "}">>, <<"__type", "(", "name", ":", "$", "v", ")", "{", "name", "}">>,
     <<"items", "{", "kids", "{", "tag", "(", "s", ":", "$", "v", ")", "}", "}">> }
 VarDoc(t, d, s) == <<"query", "(", "$", "v", ":">> \o t \o d \o <<")", "{">> \o s \o <<"}">>
+\* several variables whose defaults name each other: a ring of two, a ring of two behind the variable that is used
+VarRing(t) == { <<"$", "v", ":">> \o t \o <<"=", "$", "w", "$", "w", ":">> \o t \o <<"=", "$", "v">>,
+                <<"$", "v", ":">> \o t \o <<"=", "$", "w", "$", "w", ":">> \o t \o <<"=", "$", "u", "$", "u", ":">> \o t \o <<"=", "$", "w">>,
+                <<"$", "w", ":">> \o t \o <<"=", "$", "u", "$", "u", ":">> \o t \o <<"=", "$", "w", "$", "v", ":">> \o t }
 VarCases == {[fam |-> "vars", ph |-> "case", lang |-> "exe", form |-> VarDoc(t, d, s), sep |-> "sp", nm |-> 0] : t \in VarTypes, d \in VarDefaults, s \in VarSites}
+  \cup {[fam |-> "vars", ph |-> "case", lang |-> "exe", form |-> <<"query", "(">> \o r \o <<")", "{">> \o s \o <<"}">>, sep |-> "sp", nm |-> 0] :
+          r \in UNION {VarRing(t) : t \in {<<"String">>, <<"Int">>, <<"In">>, <<"[", "String", "]">>}}, s \in VarSites}
 
 \* a variable used by an operation that declares none (or only another one)
 UndeclCases ==
